@@ -63,6 +63,8 @@ def run(rep, ctx, tier):
                            starts=[("FIELD", LCOMB, "terms")])
         from ..rules import overwrite as R5O
         R5O.run(rep, ctx, a, ("FIELD", LCOMB, "terms"), "R5o")
+        from ..rules import dedup as R5K
+        R5K.run(rep, ctx, a, "R5k")
     # R2: which polynomials get opened / looked up for an equation depends on the labels of its terms, never on their
     # coefficients (a term with a zero or otherwise special coefficient is still a term: the verifier looks its
     # evaluation up)
